@@ -44,13 +44,17 @@ class C07:
     props_files = ['SmoothProps/C07.lean']
     props_module = 'SmoothProps.C07'
     lean_targets = ['SmoothProps.C07']
-    rule = ('harness/manif.cpp: per Manifold type (17 groups/vectors/scalars, 11 std::vector element types incl. nested, '
-            'variant and SubManifold elements, variant<SO3,SE2,VectorX>, SubManifold<SO3|SE3|VectorX(n=0..6)|Bundle<SO3,V2>> with '
-            'EVERY subset of fixed dims and shuffled constructor order, AnyManifold over 4 wrapped types) x 5 tangent '
-            'magnitude strata x container sizes 0..8; ops dof/rplus/rminus/cast/Default/copy-sequences/ctor; '
+    rule = ('harness/manif.cpp, always through the free functions smooth::rplus/rminus/dof/cast/Default: per Manifold type '
+            '(19 groups/vectors/scalars incl. SO2, C1 and the all-commutative Bundle<SO2,R2>, Bundle<C1,SO2>; 13 std::vector element '
+            'types incl. SO2, nested, variant and SubManifold elements; variant<SO3,SE2,VectorX>, variant<SO2,C1,VectorX>; '
+            'SubManifold<SO3|SE3|SO2|VectorX(n=0..6)|Bundle<SO3,R2>|Bundle<SO2,R2>> with EVERY subset of fixed dims and shuffled '
+            'constructor order; AnyManifold over SO3, SO2, VectorX, std::vector<SO3>) x 7 tangent strata (zero, tiny, small, '
+            'generic, large, near_pi: every rotation block has norm pi-u with u in [0.05,0.3], wide: norm in [1.6,3]) with elements = '
+            'products of two such exponentials (rotation angles over the whole circle, pairs straddling the +-pi cut) x container '
+            'sizes 0..8; ops dof/rplus/rminus/cast/Default/copy-sequences/ctor; '
             'distinct_nontrivial = distinct (op,type,scalar,input bits) with a non-zero input')
     assumptions = ['rounding of the axioms is audited at 1e-10 (double) / 2e-5 (float) relative to the largest coefficient, not proved',
-                   'tangents stay inside the injectivity radius (rotation part < 2.6 rad); behaviour at the radius in floats is not claimed',
+                   'tangents stay inside the injectivity radius (every rotation block has norm <= pi - 0.05); behaviour closer to the radius in floats is not claimed',
                    'template instantiations outside the harness catalogue rely on the theorems about the adaptors (generic in the element model)',
                    'binary operations on std::vector / SubManifold arguments of different shape are compared with the model only where the C++ is defined']
 
@@ -124,6 +128,7 @@ class C07:
         # ---- audits
         worst = {}
         samples = []
+        n_oracle = 0
 
         def add(l, kind, err, tol, what, extra=None):
             key = {'kind': kind, 'type': l.grp, 'prec': l.prec}
@@ -134,6 +139,32 @@ class C07:
         def track(l, name, v):
             k = f'{name}|{l.grp}|{l.prec}'
             worst[k] = max(worst.get(k, 0.0), v)
+
+        # independent oracle for the commutative rotation groups: exact angle arithmetic mod 2 pi
+        # (math.atan2 of the coefficients; nothing of the library or of the Lean model is used).
+        # rminus must be the PRINCIPAL difference: inside (-pi, pi] and congruent to arg(g1) - arg(g2).
+        for l in man:
+            if l.op != 'man_rminus' or l.grp not in ('SO2', 'C1') or not numeric(l):
+                continue
+            g = l.in_vals()
+            o = l.out_vals()
+            if len(g) != 4 or len(o) != (2 if l.grp == 'SO2' else 3):
+                continue
+            n_oracle += 1
+            eps = 1e-12 if l.prec == 'f64' else 1e-5
+            d_exp = math.atan2(g[0], g[1]) - math.atan2(g[2], g[3])
+            d_imp = o[-1]
+            cong = abs(math.remainder(d_imp - d_exp, 2 * math.pi))
+            track(l, 'rotation_oracle', cong)
+            if not (cong <= eps):
+                add(l, 'rminus_oracle', cong, eps, 'rminus of a commutative rotation group is not arg(g1) - arg(g2) mod 2 pi')
+            if not (abs(d_imp) <= math.pi * (1 + 4 * vlib.EPS[l.prec])):
+                add(l, 'rminus_principal_range', abs(d_imp), math.pi,
+                    'rminus of a commutative rotation group leaves the principal range (-pi, pi]: off by 2 pi across the branch cut')
+            if l.grp == 'C1':
+                s_exp = math.log(math.hypot(g[0], g[1])) - math.log(math.hypot(g[2], g[3]))
+                if not (abs(o[1] - s_exp) <= eps * max(1.0, abs(s_exp))):
+                    add(l, 'rminus_oracle', abs(o[1] - s_exp), eps, 'C1 rminus: log-scale part differs from ln|z1| - ln|z2|')
 
         n_aud = 0
         for l in aud:
@@ -199,7 +230,7 @@ class C07:
                'strata_hits': strata, 'types_covered': types,
                'fixed_dim_subsets_covered': {k: len(v) for k, v in subsets.items()},
                't1_lines': len(man), 't1_exception_lines': n_throw, 't1_stats': stats, 't1_breaks': len(breaks),
-               'audit_samples': n_aud, 'audit_worst_relative': worst,
+               'audit_samples': n_aud, 'audit_worst_relative': worst, 'rotation_oracle_samples': n_oracle,
                'traces_validated_against_impl': len(man)}
         return {'coverage': cov, 'findings': findings, 'broken': broken}
 
